@@ -6,6 +6,7 @@ import (
 	"math/rand"
 	"sort"
 	"strings"
+	"sync"
 
 	"github.com/nautilus/gateway"
 	"github.com/nautilus/graphql"
@@ -15,14 +16,17 @@ import (
 
 // capPlanner wraps the real planner to capture the merged schema and routing table it is given.
 type capPlanner struct {
+	mu     sync.Mutex // (requests plan concurrently in C11)
 	inner  *gateway.MinQueriesPlanner
 	Schema *ast.Schema
 	Locs   gateway.FieldURLMap
 }
 
 func (p *capPlanner) Plan(ctx *gateway.PlanningContext) (gateway.QueryPlanList, error) {
+	p.mu.Lock()
 	p.Schema = ctx.Schema
 	p.Locs = ctx.Locations
+	p.mu.Unlock()
 	return p.inner.Plan(ctx)
 }
 func (p *capPlanner) WithQueryerFactory(f *gateway.QueryerFactory) gateway.QueryPlanner {
